@@ -1099,10 +1099,14 @@ func targetedClosedClientCollected(c *core.Ctx, variant int) {
 // the application starts id again (a fresh transaction object: the pools were just flushed by the garbage collector); then
 // the first Start's write fails. The second transaction is nobody else's to release.
 func targetedRestartWhileFirstWriteFails(c *core.Ctx, rounds int) {
+	// one P: every goroutine shares one sync.Pool cache, so the completed transaction's object is the one handed out next
+	defer runtime.GOMAXPROCS(runtime.GOMAXPROCS(1))
 	for k := 0; k < rounds; k++ {
 		c.Eval(1)
-		runtime.GC()
-		runtime.GC() // sync.Pool: two collections empty primary and victim caches, the next transactions are brand new objects
+		if k%8 < 2 {
+			runtime.GC()
+			runtime.GC() // sync.Pool: two collections empty primary and victim caches, the next transactions are brand new objects
+		}
 		o := rigOpts{useRoles: true, rto: time.Second, noRetransmit: k%2 == 1}
 		r, err := newRig(o)
 		if err != nil {
@@ -1128,6 +1132,22 @@ func targetedRestartWhileFirstWriteFails(c *core.Ctx, rounds int) {
 			continue
 		}
 		r.deliver(id, response(id, fmt.Sprintf("first-%d", k)), true) // completes the first transaction: its handler runs
+		// a number of other transactions come and go in between (the completed transaction's pooled object is recycled
+		// that many times: 255, 256, 257 - a recycling counter of any narrow width comes round)
+		cycles := []int{0, 0, 254, 255, 256, 257, 511, 512}[k%8]
+		for j := 0; j < cycles; j++ {
+			oid := seqTID(1)
+			oid[5], oid[6], oid[7] = byte(j), byte(j>>8), byte(k)
+			ot := r.newTx("Start", oid, 24)
+			_ = r.start(ot)
+			r.deliver(oid, response(oid, "in-between"), true)
+		}
+		if cycles > 0 {
+			r.mu.Lock()
+			r.txs = append(r.txs[:0], first) // keep the ledger small
+			r.delivered = map[[12]byte][][]byte{}
+			r.mu.Unlock()
+		}
 		second := r.newTx("Start", id, 28)
 		if err := r.start(second); err != nil {
 			c.Violate("start-failed", "start-failed:restart", map[string]interface{}{"problem": "restarting an id whose transaction has completed returned " + err.Error(), "ledger": r.describe()})
